@@ -652,13 +652,13 @@ impl Property for C08 {
     }
 
     fn rule() -> &'static str {
-        "one evaluation = one seeded scenario: a real tree (up to 60 entries; in 40% of the runs names of 50-240 bytes so that paths reach kilobytes) under 1-3 starting points, `TESTS -print0 -exec|-execdir CMD FIXED {} + MARK` with the action placed plainly, in parentheses, under `!`, on either side of `-o`, inside a `,` list, optionally followed by `-name X -quit`, -depth on/off; faults: any subset of invocations failing (exit != 0, signal, spawn error), and knobs that shrink the argument budget for real (RLIMIT_STACK 512 KiB plus 95-120 KB of environment leave argmax 6-30 KB, so small trees need 2-8 batches); oracle over the interleaved history of output records and spawns: the paths passed, concatenated over all invocations, equal the sequence that reached the action (per directory and as ./basename with the right cwd for -execdir), each passed after it was reached, none pending at exit, fixed arguments intact, at least one path per invocation, every invocation within the kernel's budget (formula, confirmed by a real execve before reporting), truth marker after every reached entry, exit status non-zero iff some invocation failed; also -mindepth/-maxdepth, starting points with directory components, a crowded directory below the top, names that are not valid UTF-8; distinct = distinct abstract trace; non-trivial = a failing invocation fired or a probe hit (several invocations, tight budget, action under !/-o/,, -quit, -execdir)"
+        "one evaluation = one seeded scenario: a real tree (up to 60 entries; in 40% of the runs names of 50-240 bytes so that paths reach kilobytes) under 1-3 starting points, `TESTS -print0 -exec|-execdir CMD FIXED {} + MARK` with the action placed plainly, in parentheses, under `!`, on either side of `-o`, inside a `,` list, optionally followed by `-name X -quit`, -depth on/off; faults: any subset of invocations failing (exit != 0, signal, spawn error), and knobs that shrink the argument budget for real (RLIMIT_STACK 512 KiB plus 95-120 KB of environment leave argmax 6-30 KB, so small trees need 2-8 batches); oracle over the interleaved history of output records and spawns: the paths passed, concatenated over all invocations, equal the sequence that reached the action (per directory and as ./basename with the right cwd for -execdir), each passed after it was reached, none pending at exit, fixed arguments intact, at least one path per invocation, every invocation within the kernel's budget (formula, confirmed by a real execve before reporting), truth marker after every reached entry, exit status non-zero iff some invocation failed; also -mindepth/-maxdepth, starting points with directory components, a crowded directory below the top, names that are not valid UTF-8; 1/25 of the runs have real child processes (their own log of arguments and working directory, by device and inode, must agree with the seam's record, and every invocation must start), two thirds of those from a working directory 2000-6000 bytes deep (beyond PATH_MAX); the process environment is a dimension too (variables nobody should listen to such as POSIXLY_CORRECT, TZ with daylight saving, LC_ALL, in a sixth of the runs; descriptor 1 a terminal in a tenth); a slice of the scenarios also goes through the real executables; distinct = distinct abstract trace; non-trivial = a failing invocation fired or a probe hit (several invocations, tight budget, action under !/-o/,, -quit, -execdir)"
     }
 
     fn components() -> Value {
         json!({
             "real": ["build_matcher_tree: '{} +' recognition", "MultiExecMatcher::matches / finished / finished_dir", "argmax::Command::try_arg with the real sysconf(_SC_ARG_MAX) and environment of the run", "And/Or/Not/List forwarding of finished and finished_dir", "process_dir / do_find flush points incl. -quit"],
-            "stub": ["fork/exec/wait (fabricated outcomes, hook H3)", "stdout (SimSink)"]
+            "stub": ["fork/exec/wait (fabricated outcomes, hook H3; real simchild processes in 1/25 of the runs and in the binary cross-check)", "stdout (SimSink)"]
         })
     }
 
